@@ -13,6 +13,7 @@ package handler
 import (
 	"log/slog"
 
+	"github.com/goblimey/go-ntrip/rtcm/header"
 	msm4Message "github.com/goblimey/go-ntrip/rtcm/type_msm4/message"
 	msm7Message "github.com/goblimey/go-ntrip/rtcm/type_msm7/message"
 )
@@ -22,6 +23,7 @@ func init() {
 	verifRegister("VerifC04_Padding", VerifC04_Padding)
 	verifRegister("VerifC04_Types", VerifC04_Types)
 	verifRegister("VerifC04_Wide", VerifC04_Wide)
+	verifRegister("VerifC04_MaskWindows", VerifC04_MaskWindows)
 }
 
 type c04Sat struct {
@@ -461,4 +463,95 @@ func VerifC04_Wide() {
 	}
 	pad := verifParam("pad", 0, 1) * 4
 	c04Run(msm7, msgType, c04IDs(sh.nsat, 64, 2), c04IDs(sh.nsig, 32, 2), sh.mask, pad)
+}
+
+// Mask expansion on its own, for masks outside the shape family: eight
+// SYMBOLIC mask bits in a window at a chosen position of the 64-bit
+// satellite mask (or the 32-bit signal mask), the other mask a single bit,
+// every cell present.  The header decoder must list exactly the ids whose
+// bits are set, in ascending order, build one cell row per satellite and
+// count the cells.
+func VerifC04_MaskWindows() {
+	verifOwnPanics()
+	sig := verifParam("signal-mask", 0, 1) == 1
+	var positions []int
+	if sig {
+		positions = []int{0, 12, 24}
+		if verifTier() > 0 {
+			positions = nil
+			for p := 0; p <= 24; p++ {
+				positions = append(positions, p)
+			}
+		}
+	} else {
+		positions = []int{0, 28, 56}
+		if verifTier() > 0 {
+			positions = nil
+			for p := 0; p <= 56; p++ {
+				positions = append(positions, p)
+			}
+		}
+	}
+	pos := positions[verifParam("window", 0, len(positions)-1)]
+	b := uint64(verifU8("bits"))
+	var satMask, sigMask uint64
+	if sig {
+		sigMask = b << uint(24-pos)
+		satMask = 1 << (64 - 7)
+	} else {
+		satMask = b << uint(56-pos)
+		sigMask = 1 << (32 - 3)
+	}
+	var e vfBits
+	e.put(12, 1077)
+	e.put(12, 9)
+	e.put(30, 1000)
+	e.put(1+3+7+2+2+1+3, 0)
+	e.put(64, satMask)
+	e.put(32, sigMask)
+	e.put(8, 0xff) // the cell mask: every announced cell present (at most 8)
+	for e.n < 8*60 {
+		e.put(8, 0)
+	}
+	frame := vfFrame(e.buf)
+	// the oracle: ids of the set bits, most significant bit = lowest id
+	var want []uint
+	for j := 0; j < 8; j++ {
+		if b>>(7-uint(j))&1 == 1 {
+			want = append(want, uint(pos+1+j))
+		}
+	}
+	verifWitness("reached")
+	h, _, err := header.GetMSMHeader(frame, slog.LevelInfo)
+	verifAssert("mask-window-accepted", verifAnd(err == nil, h != nil))
+	if h == nil {
+		return
+	}
+	got, other := h.Satellites, h.Signals
+	if sig {
+		got, other = h.Signals, h.Satellites
+	}
+	verifAssert("mask-window-other-list", len(other) == 1)
+	verifAssert("mask-window-id-count", len(got) == len(want))
+	if len(got) != len(want) {
+		return
+	}
+	ok := true
+	for i := range want {
+		ok = verifAnd(ok, got[i] == want[i])
+	}
+	verifAssert("mask-window-ids-ascending", ok)
+	verifAssert("mask-window-cell-count", h.NumSignalCells == len(want))
+	rows := len(h.Cells) == len(h.Satellites)
+	if rows {
+		for i := range h.Cells {
+			rows = rows && len(h.Cells[i]) == len(h.Signals)
+			if rows {
+				for j := range h.Cells[i] {
+					rows = rows && h.Cells[i][j]
+				}
+			}
+		}
+	}
+	verifAssert("mask-window-cell-rows", rows)
 }
